@@ -108,6 +108,12 @@ impl Out {
         }
         self.lines
     }
+    /// Record the input about to be given to the code under test, so that if the process is killed
+    /// (allocation failure aborts, stack overflow, a `panic = abort` dependency) the runner can still
+    /// name the failing input.
+    pub fn pre(&mut self, op: &str) {
+        let _ = std::fs::write(self.meta_path.with_file_name("current.txt"), op);
+    }
     pub fn fail(&mut self, line: u64, key: &str, what: &str) {
         writeln!(self.oracle, "FAIL {line} {key} {}", what.replace('\n', " ")).expect("w");
         self.oracle_fail += 1;
@@ -148,4 +154,19 @@ pub fn fxhash(b: &[u8]) -> u64 {
 /// Run `f`, mapping a panic of the code under test to `Err(())`.
 pub fn guarded<T>(f: impl FnOnce() -> T) -> Result<T, ()> {
     std::panic::catch_unwind(std::panic::AssertUnwindSafe(f)).map_err(|_| ())
+}
+
+/// Run `f` on its own thread and wait at most `secs`; `Err(true)` = still running (a hang: the thread
+/// is left behind, spinning), `Err(false)` = it panicked.
+pub fn guarded_timeout<T: Send + 'static>(secs: u64, f: impl FnOnce() -> T + Send + 'static) -> Result<T, bool> {
+    let (tx, rx) = std::sync::mpsc::channel();
+    std::thread::spawn(move || {
+        let r = std::panic::catch_unwind(std::panic::AssertUnwindSafe(f));
+        let _ = tx.send(r);
+    });
+    match rx.recv_timeout(std::time::Duration::from_secs(secs)) {
+        Ok(Ok(v)) => Ok(v),
+        Ok(Err(_)) => Err(false),
+        Err(_) => Err(true),
+    }
 }
